@@ -12,7 +12,6 @@ import (
 	"github.com/mutagen-io/mutagen/pkg/synchronization/core"
 	"github.com/mutagen-io/mutagen/pkg/synchronization/endpoint/remote"
 	"github.com/mutagen-io/mutagen/pkg/synchronization/rsync"
-
 )
 
 // ---------------------------------------------------------------- scripted endpoint
@@ -27,15 +26,15 @@ type scanAns struct {
 type sop struct {
 	kind string // scan | stage | trans
 	// scan
-	anc      *core.Entry
-	full     bool
-	ans      scanAns // the endpoint's answer when it is asked for a plain scan
-	ansFull  scanAns // ... and when it is asked for a full scan
+	anc     *core.Entry
+	full    bool
+	ans     scanAns // the endpoint's answer when it is asked for a plain scan
+	ansFull scanAns // ... and when it is asked for a full scan
 	// stage
-	req     int    // number of requested paths
-	digests int    // number of digests handed in (= req unless the caller errs)
-	keep    []bool // which requested paths the endpoint says it still needs
-	sigs    []*rsync.Signature
+	req      int    // number of requested paths
+	digests  int    // number of digests handed in (= req unless the caller errs)
+	keep     []bool // which requested paths the endpoint says it still needs
+	sigs     []*rsync.Signature
 	stageErr string
 	// transition
 	changes  int
@@ -78,8 +77,8 @@ func (f *fake) Scan(_ context.Context, _ *core.Entry, full bool) (*core.Snapshot
 type discardSinker struct{}
 type discardSink struct{}
 
-func (discardSink) Write(p []byte) (int, error)            { return len(p), nil }
-func (discardSink) Close() error                           { return nil }
+func (discardSink) Write(p []byte) (int, error)           { return len(p), nil }
+func (discardSink) Close() error                          { return nil }
 func (discardSinker) Sink(string) (io.WriteCloser, error) { return discardSink{}, nil }
 
 func (f *fake) Stage(paths []string, _ [][]byte) ([]string, []*rsync.Signature, rsync.Receiver, error) {
@@ -239,14 +238,18 @@ func pow(b, e int) int {
 const maxStageN = 5
 
 func scriptScopes(thorough bool) []scope {
+	scan2, scan3 := 10+100, 125
+	if thorough {
+		scan2, scan3 = 20+400, 250
+	}
 	nStage := 0
 	for n := 1; n <= maxStageN; n++ {
 		nStage += 1 << n
 	}
 	out := []scope{
 		{"script", "stage-exh", nStage + 3, fmt.Sprintf("Stage: every request length 1..%d with every subset of the requested paths as the endpoint's answer (all, none, every filtered subsequence), plus an endpoint error, an empty request and a path/digest count mismatch", maxStageN)},
-		{"script", "scan-exh2", 20 + 400, "Scan: every history of length 1..2 over 5 endpoint answers (two populated snapshots, a nil-content snapshot, the zero snapshot, an error with try-again) x full flag x ancestor (nil / a populated tree)"},
-		{"script", "scan-exh3", 250, "Scan: every history of length 3 over the same 5 answers, two ancestor patterns"},
+		{"script", "scan-exh2", scan2, "Scan: every history of length 1..2 over 5 endpoint answers (two populated snapshots, a nil-content snapshot, the zero snapshot, an error with try-again) x full flag (quick) x ancestor nil / a populated tree (thorough; in the quick tier the ancestor alternates with the position)"},
+		{"script", "scan-exh3", scan3, "Scan: every history of length 3 over the same 5 answers (thorough: two ancestor patterns)"},
 		{"script", "trans-exh", 13*3*2 + 1, "Transition: 0..2 results each nil/file/directory x 0..2 problems x missing-files flag, plus an endpoint error"},
 		{"ev", "stage-ev", evStageCount, "StageResponse.ensureValid: request length 0..3 x 0..3 paths x 0..3 signatures x position of one invalid signature (none/first/last) x error set or not"},
 		{"ev", "trans-ev", evTransCount, "TransitionResponse.ensureValid: expected count 0..2 x 0..3 results (one possibly invalid) x 0..2 problems (one possibly invalid)"},
@@ -288,6 +291,15 @@ func genScript(spec CaseSpec) []sop {
 				anc = ancTree
 			}
 			return scanOp(a, anc, full)
+		}
+		if !spec.Thorough {
+			// 10 symbols (answer x full); the ancestor alternates
+			sym10 := func(k, pos int) sop { return sym(k + 10*((k+pos)%2)) }
+			if spec.Idx < 10 {
+				return []sop{sym10(spec.Idx, 0)}
+			}
+			i := spec.Idx - 10
+			return []sop{sym10(i/10, 0), sym10(i%10, 1)}
 		}
 		if spec.Idx < 20 {
 			return []sop{sym(spec.Idx)}
@@ -496,4 +508,3 @@ func (p *pair) stageShortCircuit(paths []string, digests [][]byte) {
 	p.tag("op:stage")
 	p.tag("stage:answered-by-client")
 }
-
